@@ -472,3 +472,9 @@ NOT_APPLICABLE.update({
  "C15": "Needs GroupStateRepository over fault-injecting storages with hook-built PriorEpoch / Snapshot values; PriorEpoch embeds the secret tree (BTreeMap) and every probe that touches one BTreeMap insert did not terminate (SecretTree::new inside from_key_schedule: 900 s; out_of_order history: 19.6 GB). Group-level operations are out of reach as for C04. Not attempted beyond reading; the suspected write_to_storage retry defect is recorded in DESIGN.md section 9.5, unconfirmed.",
  "C17": "check_that_subgroup_is_a_subset needs two Group values (each holding proposal-cache maps, secret tree, storage handles); building a Group literal through hooks was not attempted after TreeKem::decap and validate_update_path on a concrete 2-leaf tree already exhausted 19 GB. The suspected node-count comparison is recorded in DESIGN.md section 9.5, unconfirmed.",
 })
+
+for g in [0, 7]:
+    H("c05_window_edge_refused_g%d" % g, "c05_ratchet_request.rs", ["C05", "C04"], "quick", fs="fs_noooo", unwind=1030,
+      stubs=ZSTUBS + _CUT, timeout_s=1800,
+      what="window edge, concrete generations: a request exactly 1025 generations ahead is refused (InvalidFutureGeneration) and leaves the "
+           "ratchet unchanged", symbolic="ratchet secret bytes", bounds="generation %d, requested %d" % (g, g + 1025))
